@@ -62,7 +62,7 @@ def run(ctx):
     rng = ctx.rng
     nprog = ctx.budget(220, 5000)
     ncorr = ctx.budget(60, 1500)     # programs whose references are also run through the Coq model
-    ctx.rule = ("every compilable .proto of the repository's internal/testdata (each against the root directory it is written for) + %d generated "
+    ctx.rule = ("hand-written programs with shadowing names + every compilable .proto of the repository's internal/testdata (each against the root directory it is written for) + %d generated "
                 "multi-file programs (proto2/proto3/editions, imports incl. public, type references spelled absolute / fully qualified / relative to an enclosing "
                 "message or package prefix, maps, groups, extensions, custom options with message values, services, feature overrides); each compiled and its "
                 "output protos fed back (all files incl. dependencies) as the objects themselves, as serialised-and-decoded copies and as linked descriptors, "
@@ -77,6 +77,8 @@ def run(ctx):
         if rng.chance(1, 4):
             c["mode2"] = rng.choice([0, 1, 3])
         cases.append(c)
+    for t in pgenlib.CORPUS_SHADOW:
+        cases.insert(0, {"files": {"c.proto": t}, "order": ["c.proto"], "mode": 1, "corr": True, "origin": "corpus"})
     tcases = testdata_cases()
     for c in tcases:
         c["mode"] = 1
